@@ -151,8 +151,9 @@ def coherent(im: Impl):
     return probs
 
 class Gen:
-    def __init__(self, rnd, spec, weights):
+    def __init__(self, rnd, spec, weights, explicit_attacker_ids=True, extras=True):
         self.r, self.spec, self.w = rnd, spec, weights
+        self.explicit_attacker_ids, self.with_extras = explicit_attacker_ids, extras
         self.by = {a['name']: a for a in spec['assets']}
         self.concrete = [a['name'] for a in spec['assets'] if not a['isAbstract']] or [a['name'] for a in spec['assets']]
         self.live_a, self.dead_a, self.live_l, self.dead_l, self.live_t, self.dead_t = [], [], [], [], [], []
@@ -189,7 +190,7 @@ class Gen:
                 for d in self.defenses_of(t):
                     if r.random() < 0.4: defs.append([d, repr(r.choice([0.0, 1.0, 0.5, 0.25, -0.1, 1.0001, 1.0, 0.0]))])
                 ok = all(0.0 <= float(v) <= 1.0 for _, v in defs)
-                extras = '{}' if r.random() < 0.8 else jtxt({'color': 'red', 'n': r.randint(0, 3)})
+                extras = '{}' if r.random() < 0.8 or not self.with_extras else jtxt({'color': 'red', 'n': r.randint(0, 3)})
                 allow = r.random() < 0.8
                 self.ops.append({'k': 'add_asset', 'type': t, 'name': name, 'defenses': defs, 'defsOk': ok, 'extras': extras,
                                  'id': aid, 'allowDup': allow})
@@ -249,7 +250,7 @@ class Gen:
                         if a in R: R.remove(a)
             elif k == 'add_attacker':
                 name = r.choice([None, '', 'att', f'att{self.nt}'])
-                aid = r.choice([None, None, 0, self.next + 1, r.randint(0, 9)])
+                aid = r.choice([None, None, 0, self.next + 1, r.randint(0, 9)]) if self.explicit_attacker_ids else None
                 self.ops.append({'k': 'add_attacker', 'name': name, 'id': aid})
                 eff = aid if aid is not None else self.next
                 self.next = max(eff + 1, self.next); self.used_ids.add(eff)
